@@ -305,28 +305,86 @@ func regexFind(e *enc, x *ssa.Call, a []Term) bool {
 	return true
 }
 
-func regexSubmatch(e *enc, x *ssa.Call, a []Term) bool {
-	pat, ok := e.regexOf(x.Common().Args[0])
-	if !ok {
-		return false
-	}
+// reSubTerm: FindStringSubmatch is a deterministic function of (expression, input): one uninterpreted function per expression
+func (e *enc) reSubTerm(pat string, s Term) (Term, *smtRegex, error) {
 	re, err := regexToSMT(pat)
 	if err != nil {
-		e.note("regexp %q not translated: %v", pat, err)
-		return false
+		return "", nil, err
 	}
-	e.extUsed["regexp "+pat] = true
 	ss := e.needStrSlice()
-	r := e.fresh("resub", ss)
+	f := e.uf("resub_"+clean(fmt.Sprintf("%x", hashStr(pat))), []string{"String"}, ss)
+	if e.rePats == nil {
+		e.rePats = map[string]string{}
+	}
+	e.rePats[f] = pat
+	return fmt.Sprintf("(%s %s)", f, s), re, nil
+}
+
+func hashStr(s string) uint32 {
+	var h uint32 = 2166136261
+	for i := 0; i < len(s); i++ {
+		h ^= uint32(s[i])
+		h *= 16777619
+	}
+	return h
+}
+
+// reSubFacts: what is assumed about r = FindStringSubmatch(s) (leftmost-first / greedy choice is NOT modelled)
+func (e *enc) reSubFacts(pat string, re *smtRegex, s, r Term) {
+	ss := e.needStrSlice()
 	n := re.ngroups + 1
-	e.assume(fmt.Sprintf("(ite (str.in_re %s %s) (and (= (len_%s %s) %d) (not (nil_%s %s)) (str.contains %s (select (arr_%s %s) 0)) (str.in_re (select (arr_%s %s) 0) %s)) (and (nil_%s %s) (= (len_%s %s) 0)))",
-		a[1], re.unanchored(), ss, r, n, ss, r, a[1], ss, r, ss, r, re.core(), ss, r, ss, r))
+	e.assumps["regexp.FindStringSubmatch contract for "+pat+": nil iff no match; otherwise 1+groups strings, element 0 is a matching substring that decomposes into the groups and the literal / non-captured pieces between them; which of several possible matches is returned (leftmost-first, greedy) is not modelled"] = true
+	pos := fmt.Sprintf("(str.contains %s (select (arr_%s %s) 0))", s, ss, r)
+	if re.anchorStart {
+		pos = fmt.Sprintf("(str.prefixof (select (arr_%s %s) 0) %s)", ss, r, s)
+	}
+	if re.anchorEnd {
+		pos = fmt.Sprintf("(and %s (str.suffixof (select (arr_%s %s) 0) %s))", pos, ss, r, s)
+	}
+	e.assume(fmt.Sprintf("(ite (str.in_re %s %s) (and (= (len_%s %s) %d) (not (nil_%s %s)) %s (str.in_re (select (arr_%s %s) 0) %s)) (and (nil_%s %s) (= (len_%s %s) 0)))",
+		s, re.unanchored(), ss, r, n, ss, r, pos, ss, r, re.core(), ss, r, ss, r))
 	for i := 1; i < n; i++ {
 		e.assume(fmt.Sprintf("(=> (= (len_%s %s) %d) (str.contains (select (arr_%s %s) 0) (select (arr_%s %s) %d)))", ss, r, n, ss, r, ss, r, i))
 		if g := re.groups[i-1]; g != "" {
 			e.assume(fmt.Sprintf("(=> (= (len_%s %s) %d) (str.in_re (select (arr_%s %s) %d) %s))", ss, r, n, ss, r, i, g))
 		}
 	}
+	// structural decomposition of the whole match when the expression is a top-level concatenation
+	if len(re.parts) > 0 {
+		var pieces []string
+		for _, p := range re.parts {
+			switch {
+			case p.group > 0:
+				pieces = append(pieces, fmt.Sprintf("(select (arr_%s %s) %d)", ss, r, p.group))
+			case p.lit != "":
+				pieces = append(pieces, smtStr(p.lit))
+			default:
+				c := e.fresh("repiece", "String")
+				e.assume(fmt.Sprintf("(=> (= (len_%s %s) %d) (str.in_re %s %s))", ss, r, n, c, p.re))
+				pieces = append(pieces, c)
+			}
+		}
+		cat := pieces[0]
+		if len(pieces) > 1 {
+			cat = "(str.++ " + strings.Join(pieces, " ") + ")"
+		}
+		e.assume(fmt.Sprintf("(=> (= (len_%s %s) %d) (= (select (arr_%s %s) 0) %s))", ss, r, n, ss, r, cat))
+	}
+}
+
+func regexSubmatch(e *enc, x *ssa.Call, a []Term) bool {
+	pat, ok := e.regexOf(x.Common().Args[0])
+	if !ok {
+		return false
+	}
+	rt, re, err := e.reSubTerm(pat, a[1])
+	if err != nil {
+		e.note("regexp %q not translated: %v", pat, err)
+		return false
+	}
+	e.extUsed["regexp "+pat] = true
+	r := e.define("resub", e.needStrSlice(), rt)
+	e.reSubFacts(pat, re, a[1], r)
 	e.fr.val[x] = r
 	return true
 }
